@@ -185,7 +185,43 @@ impl Stargate for RecStargate {
     }
 }
 
-type RApp = App<RecBank, MockApi, SnapStorage, RecCustom, WasmKeeper<MyMsg, MyQuery>, RecStaking, RecDistr, RecIbc, RecGov, RecStargate>;
+/// The configured wasm module: the real keeper behind a recording wrapper that can veto the
+/// message under test.
+pub struct RecWasm(WasmKeeper<MyMsg, MyQuery>);
+impl cw_multi_test::Wasm<MyMsg, MyQuery> for RecWasm {
+    fn execute(&self, api: &dyn Api, storage: &mut dyn Storage, router: &dyn CosmosRouter<ExecC = MyMsg, QueryC = MyQuery>, block: &BlockInfo, sender: Addr, msg: WasmMsg) -> AnyResult<AppResponse> {
+        log("wasm", "execute", sender.as_str(), format!("{:?}", msg));
+        let under_test = matches!(&msg, WasmMsg::Execute { msg: m, .. } if m.as_slice() == to_json_binary(&Cmd { script: 9 }).unwrap().as_slice());
+        if under_test && FAIL.with(|f| *f.borrow() & (1 << 7) != 0) {
+            anyhow::bail!("module wasm configured to fail")
+        }
+        self.0.execute(api, storage, router, block, sender, msg)
+    }
+    fn query(&self, api: &dyn Api, storage: &dyn Storage, querier: &dyn Querier, block: &BlockInfo, request: WasmQuery) -> AnyResult<Binary> {
+        log("wasm", "query", "", format!("{:?}", request));
+        self.0.query(api, storage, querier, block, request)
+    }
+    fn sudo(&self, api: &dyn Api, storage: &mut dyn Storage, router: &dyn CosmosRouter<ExecC = MyMsg, QueryC = MyQuery>, block: &BlockInfo, msg: cw_multi_test::WasmSudo) -> AnyResult<AppResponse> {
+        self.0.sudo(api, storage, router, block, msg)
+    }
+    fn store_code(&mut self, creator: Addr, code: Box<dyn Contract<MyMsg, MyQuery>>) -> u64 {
+        self.0.store_code(creator, code)
+    }
+    fn store_code_with_id(&mut self, creator: Addr, code_id: u64, code: Box<dyn Contract<MyMsg, MyQuery>>) -> AnyResult<u64> {
+        self.0.store_code_with_id(creator, code_id, code)
+    }
+    fn duplicate_code(&mut self, code_id: u64) -> AnyResult<u64> {
+        self.0.duplicate_code(code_id)
+    }
+    fn contract_data(&self, storage: &dyn Storage, address: &Addr) -> AnyResult<cw_multi_test::ContractData> {
+        self.0.contract_data(storage, address)
+    }
+    fn dump_wasm_raw(&self, storage: &dyn Storage, address: &Addr) -> Vec<cosmwasm_std::Record> {
+        self.0.dump_wasm_raw(storage, address)
+    }
+}
+
+type RApp = App<RecBank, MockApi, SnapStorage, RecCustom, RecWasm, RecStaking, RecDistr, RecIbc, RecGov, RecStargate>;
 
 // ---------------------------------------------------------------------------------------------
 // message / query kinds
@@ -428,6 +464,7 @@ fn world() -> RWorld {
         .with_storage(SnapStorage::new())
         .with_bank(RecBank(BankKeeper::new()))
         .with_custom(RecCustom)
+        .with_wasm(RecWasm(WasmKeeper::new()))
         .with_staking(RecStaking)
         .with_distribution(RecDistr)
         .with_ibc(RecIbc)
@@ -464,7 +501,7 @@ struct Case {
 }
 
 fn case_json(c: &Case) -> Value {
-    json!({"engine": "route", "failing_modules": MODS.iter().enumerate().filter(|(i, _)| c.fail_mask & (1 << i) != 0).map(|(_, m)| *m).collect::<Vec<_>>(), "fail_mask": c.fail_mask,
+    json!({"engine": "route", "failing_modules": MODS.iter().copied().chain(["wasm (vetoes the message under test)"]).enumerate().filter(|(i, _)| c.fail_mask & (1 << i) != 0).map(|(_, m)| m).collect::<Vec<_>>(), "fail_mask": c.fail_mask,
            "message_kind": c.kind, "origin": (["top-level", "sub-message of a contract typed for the chain's custom message", "sub-message of an Empty-typed contract lifted by new_with_empty", "two levels deep, typed", "two levels deep, lifted"][c.origin as usize]),
            "origin_code": c.origin, "reply_on": (["never", "success", "error", "always"][c.mode as usize]), "mode": c.mode, "after_earlier_call_and_write": c.with_earlier, "wasm_callee_fails": c.callee_fails})
 }
@@ -502,12 +539,20 @@ fn run_case(ctx: &Ctx, w: &mut RWorld, c: &Case) -> u64 {
     };
     // expectations
     let module = module_of(c.kind);
-    let module_fails = if c.kind == "wasm" { c.callee_fails } else { c.fail_mask & (1 << MODS.iter().position(|m| *m == module).unwrap()) != 0 };
+    let module_fails = if c.kind == "wasm" { c.callee_fails || c.fail_mask & (1 << 7) != 0 } else { c.fail_mask & (1 << MODS.iter().position(|m| *m == module).unwrap()) != 0 };
     let caught = c.origin != 0 && (c.mode == 2 || c.mode == 3);
     let want_ok = !module_fails || caught;
     let mut n = 1u64;
     // (1) exactly one record in the configured module, with the true sender and the payload unchanged; none elsewhere
-    let module_recs: Vec<&Rec> = logv.iter().filter(|r| r.module != "contract").collect();
+    let module_recs: Vec<&Rec> = logv.iter().filter(|r| r.module != "contract" && r.module != "wasm").collect();
+    // every wasm message of the transaction (the top-level call, relays, earlier/later siblings and
+    // the message under test) must have passed through the configured wasm module exactly once
+    let contract_runs = logv.iter().filter(|r| r.module == "contract" && r.op != "reply").count();
+    let wasm_execs: Vec<&Rec> = logv.iter().filter(|r| r.module == "wasm" && r.op == "execute").collect();
+    let vetoed = c.kind == "wasm" && c.fail_mask & (1 << 7) != 0;
+    if wasm_execs.len() != contract_runs + vetoed as usize {
+        ctx.violation("c17:routing:wasm-message-bypassed-the-configured-wasm-module", json!({"case": cj(), "contract_entry_invocations": contract_runs, "wasm_module_execute_records": wasm_execs.iter().map(|r| format!("{:?}", r)).collect::<Vec<_>>()}));
+    }
     if c.kind != "wasm" {
         let expected_sender = emitter.clone();
         let want = Rec { module, op: op_of(c.kind), sender: expected_sender, payload: payload_of(c.kind, &w.callee, &w.recipient) };
@@ -522,8 +567,16 @@ fn run_case(ctx: &Ctx, w: &mut RWorld, c: &Case) -> u64 {
         if !module_recs.is_empty() {
             ctx.violation("c17:routing:wasm-message-reached-another-module", json!({"case": cj(), "module_records": module_recs.iter().map(|r| format!("{:?}", r)).collect::<Vec<_>>()}));
         }
+        let under_test: Vec<&&Rec> = wasm_execs.iter().filter(|r| r.payload.contains("\"script\":9")).collect();
+        if under_test.len() != 1 || under_test[0].sender != emitter {
+            ctx.violation("c17:routing:wasm", json!({"case": cj(), "expected": format!("one execute record in the configured wasm module sent by {}", emitter), "got": under_test.iter().map(|r| format!("{:?}", r)).collect::<Vec<_>>()}));
+        }
         let callee_recs: Vec<&Rec> = logv.iter().filter(|r| r.module == "contract" && r.payload == format!("{} script=9", w.callee)).collect();
-        if callee_recs.len() != 1 || callee_recs[0].sender != emitter {
+        if vetoed {
+            if !callee_recs.is_empty() {
+                ctx.violation("c17:routing:wasm-callee-ran-despite-module-failure", json!({"case": cj()}));
+            }
+        } else if callee_recs.len() != 1 || callee_recs[0].sender != emitter {
             ctx.violation("c17:routing:wasm", json!({"case": cj(), "expected": format!("callee {} invoked once by {}", w.callee, emitter), "got": callee_recs.iter().map(|r| format!("{:?}", r)).collect::<Vec<_>>()}));
         }
     }
@@ -602,7 +655,8 @@ fn run_query_case(ctx: &Ctx, w: &mut RWorld, qkind: &'static str, origin: u8, fa
         ctx.violation("c17:query-changed-state", json!({"case": cj()}));
     }
     let module = module_of(qkind);
-    let module_recs: Vec<&Rec> = logv.iter().filter(|r| r.module != "contract").collect();
+    // (the transaction that carries a query from inside a contract is itself a wasm execute)
+    let module_recs: Vec<&Rec> = logv.iter().filter(|r| r.module != "contract" && !(r.module == "wasm" && r.op == "execute")).collect();
     // a custom query from a lifted contract cannot be expressed in the chain's query type: not asserted
     if qkind == "custom" && origin == 2 {
         return 1;
@@ -621,8 +675,8 @@ fn run_query_case(ctx: &Ctx, w: &mut RWorld, qkind: &'static str, origin: u8, fa
         if !module_fails && qkind != "bank" && !res.contains(&format!("{:?}", to_json_binary(&format!("answer-from-{}", module)).unwrap())) {
             ctx.violation(&format!("c17:query-answer-not-from-module:{}", qkind), json!({"case": cj(), "answer": res}));
         }
-    } else if !module_recs.is_empty() {
-        ctx.violation("c17:query-routing:wasm-query-reached-another-module", json!({"case": cj(), "module_records": module_recs.iter().map(|r| format!("{:?}", r)).collect::<Vec<_>>()}));
+    } else if module_recs.len() != 1 || module_recs[0].module != "wasm" || module_recs[0].op != "query" {
+        ctx.violation("c17:query-routing:wasm-query-not-exactly-once-in-the-wasm-module", json!({"case": cj(), "module_records": module_recs.iter().map(|r| format!("{:?}", r)).collect::<Vec<_>>()}));
     }
     2
 }
@@ -630,13 +684,13 @@ fn run_query_case(ctx: &Ctx, w: &mut RWorld, qkind: &'static str, origin: u8, fa
 fn cases(tier: Tier) -> Vec<Case> {
     let mut v = vec![];
     let masks: Vec<u32> = match tier {
-        Tier::Thorough => (0..128).collect(),
+        Tier::Thorough => (0..256).collect(),
         // quick: nothing fails, each single module fails, everything fails, everything but one
         Tier::Quick => {
-            let mut m = vec![0u32, 127];
-            for i in 0..7 {
+            let mut m = vec![0u32, 255];
+            for i in 0..8 {
                 m.push(1 << i);
-                m.push(127 ^ (1 << i));
+                m.push(255 ^ (1 << i));
             }
             m
         }
@@ -696,7 +750,7 @@ pub fn run_c17(ctx: &Ctx) -> i32 {
         "rule": "one state = one configuration (which modules fail) x message/query kind x origin x reply_on x position, executed on an App built with recording modules; transitions = clauses checked (exactly one record in the configured module with true sender and unchanged payload, none elsewhere; caller sees the module's Ok/Err; failing module aborts the transaction unless caught; reply per reply_on; surrounding effects kept)",
         "exhaustive": true,
         "message_cases": cs.len(), "query_cases": qcases.len(),
-        "switch_combinations": ctx.tier.pick("16 (none, all, each single module, all but one)", "all 128"),
+        "switch_combinations": ctx.tier.pick("18 (none, all, each single module, all but one)", "all 256"),
         "kinds": KINDS, "query_kinds": QKINDS,
         "origins": ["top-level", "sub-message of typed contract", "sub-message of lifted Empty-typed contract", "two levels deep (typed)", "two levels deep (lifted)"],
         "caps_hit": [],
